@@ -15,8 +15,7 @@ RULE = ("random op sequences (set mapping/kwargs, with-set, get, update_defaults
         "(op kind, outcome, nesting depth, twin-spelling used, state size bucket) with a non-empty state")
 TRUSTED = ["torch.device() string parsing and torch.cuda/mps availability (parameters of validateDevice)",
            "yaml collection made empty via QUANTEM_CONFIG (hermetic)"]
-ASSUMPTIONS = ["after an update_defaults call that raises, only the error kind is compared (partial in-place merge is not modelled) and the sequence stops",
-               "keys with both '-' and '_' are outside the twin-spelling theorems (altKey is not an involution there); they are still exercised by the correspondence"]
+ASSUMPTIONS = ["keys with both '-' and '_' are outside the twin-spelling theorems (altKey is not an involution there); they are still exercised by the correspondence"]
 EXPLANATION = ("Theorems in Props/C19.lean are about Model/Config.lean; every run drives the real config module and the model "
                "with the same op sequences and compares results, error kinds and the full config (order-sensitive).")
 
@@ -280,11 +279,6 @@ def run_sequence(ctx, drv, cfgmod, ops, init, env, module_state):
         if "driver" in str(m.get("err", "")):
             raise RuntimeError(f"driver error {m}")
         stop = False
-        if kind == "update_defaults" and "err" in res:
-            # a failing update_defaults has already appended to `defaults` and may have merged
-            # part of the mapping in place; only the error kind is compared, the sequence ends here
-            m = {"r": m.get("r")}
-            impl_view = {"r": res}
         if m != json.loads(json.dumps(impl_view)):
             ctx.disagree("config-ops", {"init": init, "ops": ops[: i + 1]}, m, impl_view,
                          note=f"op #{i} {kind}")
@@ -375,6 +369,12 @@ def run_sequence(ctx, drv, cfgmod, ops, init, env, module_state):
             for d in ref.defaults:
                 ref_merge(cur, copy.deepcopy(d))
             ref.cfg = cur
+        elif kind == "refresh" and ref.valid and "err" in res:
+            # every default the reference map holds was accepted: refresh must restore them
+            ctx.pred_fail("refresh-raises", f"refresh raised {res['err']} although every accumulated default had been accepted "
+                          "(a rejected request must leave the store unchanged)", case, observed=res,
+                          required="configuration = merge of the accumulated defaults")
+            ref.valid = False
         if ref.valid and "err" not in res and kind != "get":
             if norm(after) != ref.cfg:
                 ctx.pred_fail(f"lww-map-{kind}", f"configuration after {kind} differs from the last-writer-wins reference map",
@@ -397,8 +397,7 @@ def run_sequence(ctx, drv, cfgmod, ops, init, env, module_state):
                     ctx.pred_fail("get-phantom", "get returned a value for a key never set", case, observed=res, required="KeyError/default")
         if ctx.samples is not None and i == len(ops) - 1:
             ctx.sample({"init": "module defaults" if init_defaults else "empty", "ops": ops[:6], "final_result": res}, limit=3)
-        if stop or res.get("err") and kind == "update_defaults":
-            # after a failed update_defaults the real module has appended to `defaults` (model reports the error state); stop here
+        if stop:
             break
     return None
 
